@@ -29,6 +29,51 @@ CLAIMED = {
         "Relational oracle: the library's own new-moon days and term days (judged astronomically in C05); the rule is the classical no-major-term rule. Years before 27 and the sui starting 237-239 are outside the property.",
         "exhaustive enumeration of all sui with a rule-derived labelling compared to the implementation's labels",
         "DESIGN.md 2/C04"),
+    "C05": (
+        "Four bounded spaces, each enumerated completely. (1) all 6,024 solar terms and 3,110 lunations of 1900-2150 against an independent theory typed from Meeus (ch. 25 apparent solar longitude + Espenak-Meeus delta-T: tolerance 15 min = the theory's 0.01 deg; ch. 49 new-moon series with 14 planetary terms, compared in TT: tolerance 1 min), and all lunations of -1000..6000 (quick 1000..4000) within 3 min; (2) every term of 1961-9999 and every lunation of lunar years 1961-8000 (quick: windows): calendar-making day = UTC+8 civil day of the precisely solved instant (the midnight guard band); (3) inverse-solver residuals for every target k*pi/12 and k*2pi over +-10,000 years (quick: every 10th) < 1 arcsec; (4) delta-T second differences on a 0.05-year grid over -4000..10000 (< 6 s).",
+        "Sub-space 1 is the only independent one; a coefficient perturbation moving instants by less than the tolerance and flipping no civil day is out of reach offline (stated in the evidence). Known finding: the lunar solver's residual exceeds 1 arcsec (up to 57) beyond about AD 6180 / before 2530 BC.",
+        "exhaustive enumeration of all terms/lunations of bounded eras against an independent ephemeris model + self-consistency sweeps",
+        "DESIGN.md 2/C05"),
+    "C13": (
+        "Every civil year 1..9999: 2 half-years, 4 seasons, 12 months, nesting both ways; every one of the 119,988 months lists exactly the odometer's dates of that month, each listed date's day-of-year equals its position in the year's lists, the lists sum to the year's day count. Every lunar year 0..9999: month list = lunation table slice; every lunation lists days 1..=len on consecutive civil days. Hour lists (LunarDay 13 slots, SixtyCycleDay 12 slots with pillars) on 4 x 400 consecutive days; sexagenary months of all Lichun-years (quick: windows) list exactly Jie day .. day before the next Jie.",
+        "Oracles: odometer, lunation table (model order), the library's own Jie days.",
+        "exhaustive enumeration of all containers with list-equals-model oracles",
+        "DESIGN.md 2/C13"),
+    "C14": (
+        "Every civil month (thorough: all 119,988; quick: windows) x 7 week starts x every index: week count and refusal beyond it, first-day weekday, 7 consecutive days, date->week for every date of the month, next(n) (first day moves 7n and the (month, index) label denotes that week) for 13 step counts and for every n in -60..60 in years 1-3, 1580-1584, 1998-2030, 9997-9999, index in year. Lunar months of the windows (thorough: plus every 10th year) likewise with n in -30..30.",
+        "Weeks reaching outside 0001-01-01..9999-12-31 are outside the claim; lunar weeks of the reform-era years 7-26 / 235-241 are left to C02/C03.",
+        "exhaustive enumeration of all (month, start, index) weeks x step alphabet against an ordinal week model",
+        "DESIGN.md 2/C14"),
+    "C15": (
+        "Every civil date of years 2..9998 (thorough: all 3.65M; quick: windows) x five series re-derived from the term-day table and the (JDN+49) mod 60 pillar only: Nines, Dog days (third Geng day on/after the solstice; 10/20-day middle period by the fifth Geng day vs Liqiu), Plum rains, 72 pentads with inner index, commanding stems from the classical allotment table typed by name.",
+        "Term days are the library's own (C05/C06).",
+        "explicit-state enumeration of all dates against series re-derived from term table + day pillar",
+        "DESIGN.md 2/C15"),
+    "C16": (
+        "Fully enumerated birth lattices: every Jie of the year windows (quick 1573-75, 1581-83, 2019-25; thorough 2-6, 1570-1590, 1890-2110, 9985-87) x 16 offsets (0, +-1 s, +-59 s, +-1 min, +-1 h, +-1 d, +-3 d, +-15 d, +7 d 3 h) x 2 genders x 4 strategies; births on days 28-31 / 1 of every month (every day of October 1582) at 23:59:59, 00:00:00, 12:00:00; a 997 s lattice across whole Jie-to-Jie spans; one birth per day of 1572-1582. Oracle: direction from year-stem polarity and gender, governing Jie from the term table, documented conversion rates per strategy, end = calendar addition via ordinals, 0 <= end - birth <= 11 y; decade fortunes (pillar = month pillar +-(k+1), ages 10 apart, years) and yearly fortunes (hour pillar +- age, year) incl. next(n).",
+        "'Random birth instants' of the property are replaced by these lattices. When October 1582 is the target month both readings of the day (count / number) are accepted. Limits ending after 9999 are outside the claim.",
+        "exhaustive enumeration of birth-instant lattices x genders x strategies against a term-table + calendar-arithmetic model",
+        "DESIGN.md 2/C16"),
+    "C17": (
+        "Day series on every civil date of 1..9998 (thorough all, quick windows): day officer, twelve spirits (both routes), 28 mansions (both routes agree, luminary = weekday, advance by one across every adjacent pair), day nine star (accept-set where the two classical alignments disagree), six-day star incl. every leap-month day, moon phase, minor Ren; hour series (nine star, twelve spirits, minor Ren) on all 24 clock hours of 2000 days (quick 180); year star for all years -1..9999 (both year types), month star for every sexagenary month and every lunar month.",
+        "Known finding: the 160 reform-era dates (C02) inherit a wrong day pillar. At 23:00 the hour nine star may use either day's branch (the two hour views differ by convention); day nine star of civil year 1 needs the solstice of 1 BC.",
+        "explicit-state enumeration of all dates/hours/years against recurrences typed from the classical rules",
+        "DESIGN.md 2/C17"),
+    "C18": (
+        "Complete: all 720 (month branch, day pillar) and 720 (day pillar, hour branch) pairs, visited in both table orders by two worker processes (day table first / hour table first, each table again after the other), all 151 spirits, kitchen-god steed of all lunar years 0..9999, accessors on 360 days x 12 double-hours. Oracle: no failure, entries in the published name lists with round trip, >= 1 spirit per day, recommends and avoids disjoint, luck class by list split, and equality with an independent re-decoding of the three packed tables from the source text (record framing, every hex pair < list length).",
+        "If the table literals cannot be found in /repo/src/tyme/culture/mod.rs the re-decoding sub-check reports itself as skipped (never alarms). Lunar year -1 has no constructible first month.",
+        "complete enumeration of all table keys with independent re-decoding of the packed tables",
+        "DESIGN.md 2/C18"),
+    "C19": (
+        "Complete finite enumeration (10 stems, 12 branches, 10x10, 10x12, 12x12, 5 elements, 9 directions, 60 pillars, 28 mansions, 9+12+6 stars, 366 month-days, 13 lunar months, 1440 palace-sign inputs): every attribute compared with a first-principles encoding typed by name (generation/overcoming cycle, the five direction rhymes, hidden stems, ten-star by relation x polarity, growth stages, five/six combinations, clashes, harms as involutions, Nayin, Xun and void, zodiac, sign boundaries, daily/monthly foetus spirit, mansion luminary/animal/land/luck, star colours/elements/directions, own sign and body sign by the Five-Tigers rule).",
+        "The encoding is the trusted base. For 戊戌 己亥 戊申 of the daily foetus-spirit table both printed variants are accepted; the body sign is only required to be a Five-Tigers-legal pillar.",
+        "complete enumeration of finite attribute tables against an independent encoding",
+        "DESIGN.md 2/C19"),
+    "C20": (
+        "Civil festivals: every civil date of 1900..2100 (quick 1925..2035) by date, every (year, index 0..11) with next(n), n in -25..25. Lunar festivals: every lunar year (quick: windows + 1925..2035) x indices 0..14: day vs the model (fixed lunar dates, Qingming / winter-solstice term days, New Year's Eve = last day of the year), the day's own lookup returns it or the earlier-listed one, next(n) for 11 step counts; every lunar date of 1900..2100 (quick 1990..2030) by date. Legal holidays: all records framed independently (13 chars): real date, strictly increasing, offset target is a rest day of the table, lookup returns exactly the record, membership of every civil date 2000..2030, next(n) for every n from two before the table start to two past its end (quick: 12 step counts incl. both ends), pair law.",
+        "Lunar festivals of the reform-era years 7-26 / 235-241 are left to C02/C03.",
+        "exhaustive enumeration of dates / indices / table records with independently framed records and table-derived festival dates",
+        "DESIGN.md 2/C20"),
     "C06": (
         "Explicit-state exploration against the library's own term table (240,024 terms, years 0..10000): (a) every adjacent pair strictly increasing 14.6-15.8 d apart; (b) from_index(y,i) for i in -30..54, from_name, Jie/Qi parity and next(n), n in -50..50, for every year x 24 terms equal the table entry n places away; (c) every civil date (thorough: all; quick: windows): get_term_day / get_term = latest term whose day <= date with index = days elapsed; (d) every term's second-rounded instant -1 s/+0/+1 s and two instants of every window date for SolarTime::get_term.",
         "A term's start is the instant/day the library reports for it (judged astronomically in C05). Days of January 0001 before the first term day are outside the claim (governing term in 1 BC).",
